@@ -1,4 +1,5 @@
 import MidnightZK.Proofs.C14.Lagrange
+import MidnightZK.Proofs.C14.Sets
 import MidnightZK.Model.C14.Fr
 /-!
 # C14 — KZG multi-opening: correct openings verify, any wrong claim is rejected
@@ -14,6 +15,66 @@ for the challenges.
 namespace MidnightZK.C14
 
 open Polynomial
+
+section grouping
+variable {C C' P E E' : Type} [DecidableEq C] [DecidableEq C'] [DecidableEq P]
+
+/-- `construct_intermediate_sets` returns `Err(DuplicatedQuery)` exactly when some
+`(commitment, point)` pair occurs twice in the query list — for every query list, whatever the
+evaluations. (Prover side: `multi_open` fails; verifier side: `multi_prepare` fails.) -/
+theorem duplicate_query_errors (dflt : E) (qs : List (Query C P E)) :
+    constructIntermediateSets dflt qs = none ↔ ¬ (qs.map (fun q => (q.com, q.point))).Nodup :=
+  construct_none_iff dflt qs
+
+example : constructIntermediateSets (0 : Nat) [⟨1, 5, 7⟩, ⟨2, 5, 8⟩, ⟨1, 5, 9⟩] = none := by decide
+
+/-- Specification of the grouping, for every duplicate-free query list:
+* the commitment map lists the distinct commitments in order of first appearance;
+* every query `(c, p, e)` finds its commitment's data `d`; the point set `S` stored at
+  `d.set_index` consists of exactly the points at which `c` is queried, without repetition;
+  `d.evals` has the length of `S`, and `e` is stored at the position `j` where `p` sits in `S`
+  (evaluations in point-set order, not in query order). -/
+theorem sets_spec (dflt : E) (qs : List (Query C P E))
+    (cm : List (CommitmentData C E)) (psets : List (List P))
+    (h : constructIntermediateSets dflt qs = some (cm, psets)) :
+    cm.map (·.com) = firstOcc (qs.map (·.com)) ∧
+    ∀ q ∈ qs, ∃ d ∈ cm, d.com = q.com ∧ ∃ S, psets[d.setIndex]? = some S ∧
+      d.evals.length = S.length ∧ S.Nodup ∧
+      (∀ p, p ∈ S ↔ ∃ q' ∈ qs, q'.com = q.com ∧ q'.point = p) ∧
+      ∃ j : Nat, S[j]? = some q.point ∧ d.evals[j]? = some q.eval :=
+  ⟨construct_coms dflt qs cm psets h, fun q hq => construct_query dflt qs cm psets h q hq⟩
+
+/-- Non-vacuity and a concrete instance: `a` at `x, y`; `b` at `y, x` (same set, other query
+order: evaluations are stored in set order `x, y`); `c` at `y`. -/
+example : constructIntermediateSets (0 : Nat)
+    [⟨"a", 10, 1⟩, ⟨"a", 20, 2⟩, ⟨"b", 20, 3⟩, ⟨"b", 10, 4⟩, ⟨"c", 20, 5⟩] =
+    some ([⟨"a", 0, [0, 1], [1, 2]⟩, ⟨"b", 0, [1, 0], [4, 3]⟩, ⟨"c", 1, [1], [5]⟩], [[10, 20], [20]]) := by
+  decide
+
+/-- Prover and verifier group alike: the grouping commutes with any injective renaming `f` of the
+commitments (polynomial references ↦ commitment references) and any map `g` on evaluations. Hence
+set indices, point indices and point sets coincide on both sides, and an error on one side is an
+error on the other. -/
+theorem prover_verifier_same_shape (f : C → C') (hf : Function.Injective f) (g : E → E') (dflt : E)
+    (qs : List (Query C P E)) :
+    constructIntermediateSets (g dflt) (qs.map (relabelQuery f g)) =
+      (constructIntermediateSets dflt qs).map (fun r => (r.1.map (relabelData f g), r.2)) :=
+  construct_relabel f hf g dflt qs
+
+example : Function.Injective (fun (i : Nat) => ComRef.one i) := fun _ _ h => by cases h; rfl
+
+/-- The point sets of the result are pairwise different lists of point indices and the set index
+of a commitment is the rank of first appearance of its point set (insertion-ordered map). -/
+theorem set_indices_first_appearance (cm : List (C × List Nat)) :
+    (phase2 cm).Nodup ∧ ∀ y, y ∈ phase2 cm ↔ ∃ e ∈ cm, btreeSet e.2 = y :=
+  ⟨phase2_nodup cm, mem_phase2 cm⟩
+
+/-- `BTreeSet` as modelled: strictly increasing, same members. -/
+theorem btree_set_spec (l : List Nat) :
+    (btreeSet l).Pairwise (· < ·) ∧ ∀ y, y ∈ btreeSet l ↔ y ∈ l :=
+  ⟨btreeSet_sorted l, mem_btreeSet l⟩
+
+end grouping
 
 section algebra
 variable {F : Type} [Field F] [DecidableEq F]
